@@ -243,6 +243,7 @@ def run(ctx, report):
     for config in ctx.configs:
         facts = ctx.facts(config)
         report.guard("C13.FANOUT", F.check_family, ctx, report, "C13.FANOUT", facts, config, (F.SETUP, F.DISPOSE))
+        report.guard("C13.UNLISTED", F.unlisted, ctx, report, "C13.UNLISTED", facts, config, (F.SETUP, F.DISPOSE))
         report.guard("C13.FANOUT", F.carrier_inventory, ctx, report, "C13.FANOUT", facts, config)
         report.guard("C13.FANOUT", F.lifecycle_siblings, ctx, report, "C13.FANOUT", facts, config, EXCEPTIONS)
         report.guard("C13.FANOUT", setup_extra, ctx, report, facts, config)
